@@ -4,6 +4,7 @@ and atomicity (C19) oracles can all be driven by the same histories.
 """
 import collections
 import copy
+import re
 import operator
 import datetime
 import decimal
@@ -993,8 +994,9 @@ class Generator:
         elif op == 'update':
             k1, k2 = 'k' + self.fresh_name(), (r.choice(keys) if keys else 'k' + self.fresh_name())
             d = {k1: mv(k1), k2: mv(k2)}
-            if not raw and r.random() < 0.4:
-                # the argument is the meta mapping of another entry (plain values only: nodes of that entry would be attached)
+            if not raw and r.random() < 0.4 and re.fullmatch(r'[a-z][a-zA-Z0-9\-_]+', k2):
+                # the argument is the meta mapping of another entry (plain values only: nodes of that entry would be attached);
+                # (a key token that an earlier raw_text assignment has emptied cannot be written into a text)
                 other = common.parser().parse(f'2000-01-01 close Assets:X\n    {k1}: "a {k1}"\n    {k2}: {r.randint(1, 99)}', models.Close)
                 arg = other.meta
                 d = dict(arg.items())
